@@ -987,6 +987,49 @@ def f_singledispatch():
     return [_kind(v) for v in (True, 5, 'ab', b'xy', bytearray(b'z'), 2.5, None, [1], _Base(), _Derived())], _kind(7, extra=3), _kind(7, 1)
 
 
+import contextlib
+
+
+@contextlib.contextmanager
+def _pushed(path, bits, log):
+    n = len(path)
+    path.extend(bits)
+    log.append(('enter', list(path)))
+    try:
+        yield path
+    finally:
+        del path[n:]
+        log.append(('exit', list(path)))
+
+
+@contextlib.contextmanager
+def _swallow(log):
+    try:
+        yield 'token'
+    except KeyError:
+        log.append('swallowed')
+
+
+def f_contextmanager():
+    path, log = [1], []
+    with _pushed(path, [2, 3], log) as p:
+        inner = list(p)
+        with _pushed(path, [4], log):
+            deep = list(path)
+    try:
+        with _pushed(path, [9], log):
+            raise ValueError('boom')
+    except ValueError:
+        log.append('propagated')
+    with _swallow(log) as tok:
+        raise KeyError('x')
+    def early():
+        with _pushed(path, [7], log):
+            return list(path)
+    e = early()
+    return inner, deep, path, log, tok, e
+
+
 def f_str_bits():
     s = bin(0b101101)[2:]
     return s, s.zfill(8), int(s[::-1], 2), s.count('1'), s.rfind('1'), s[:3] + '0' * 2, '{:08b}'.format(5), f'{5:08b}'[-3:], ''.join('1' if c == '0' else '0' for c in s)
